@@ -144,9 +144,14 @@ func (i *interpreter) trimSpace(s value) (value, value, value) {
 		}
 	}
 	i.ex.noteApprox("TrimSpace: general (regex) encoding used")
+	if m, ok := p.memo["trim|"+tStr(s)]; ok {
+		r := m.([3]value)
+		return r[0], r[1], r[2]
+	}
 	a := p.freshVar("wsL", SStr)
 	t := p.freshVar("core", SStr)
 	b := p.freshVar("wsR", SStr)
+	p.memo["trim|"+tStr(s)] = [3]value{a, t, b}
 	p.pc = append(p.pc,
 		"(= "+tStr(s)+" (str.++ "+a.e+" "+t.e+" "+b.e+"))",
 		"(str.in_re "+a.e+" (re.* "+wsTokenRe+"))",
@@ -174,12 +179,15 @@ func (p *Path) edgeSafe(sg interface{}, first bool) bool {
 		}
 		return !inSet(b, excl)
 	case *Sym:
-		a, ok := p.alpha[sg.e]
-		if !ok {
-			return false
-		}
 		lo, _ := p.ivOf(p.mkLen(sg))
 		if lo == nil || lo.Sign() <= 0 {
+			return false
+		}
+		if p.facts["class|trimmed|"+sg.e] {
+			return true
+		}
+		a, ok := p.alpha[sg.e]
+		if !ok {
 			return false
 		}
 		for b := 0; b < 256; b++ {
